@@ -3,7 +3,7 @@
 //! product on its dump, its minimizer pairs are checked for equivalence, and the inputs the property
 //! names are scanned for real.
 
-use crate::e1::check_cfg;
+use crate::e1::{analyse_built, E1Outcome};
 use bridge::{catch, CPat, Cfg};
 use refsem::evidence::{Run, Samples, Tier, ViolAcc, Violation};
 use refsem::par::par_for;
@@ -113,8 +113,11 @@ pub fn run(tier: Tier) -> ! {
     par_for(inst.len(), 1, || (), |_, i| {
         let ins = &inst[i];
         let t0 = std::time::Instant::now();
-        // 1. through the public API only
+        // 1. one build through the public API (the minimizer recorder is a passive hook)
+        scnr::verif::minimizer_recording(true);
         let built = catch(|| ins.cfg.build_uncached());
+        let log = scnr::verif::minimizer_take_log();
+        scnr::verif::minimizer_recording(false);
         let build_s = t0.elapsed().as_secs_f64();
         let brief = json!({"instance": ins.name, "patterns": ins.cfg.modes[0].pats.len(), "approx_unminimized_states": ins.states});
         match built {
@@ -142,9 +145,10 @@ pub fn run(tier: Tier) -> ! {
                         });
                     }
                 }
-                drop(sc);
                 // 3. all strings: E1 product on the dump + minimizer pairs (hooks)
-                let o = check_cfg(&ins.cfg, &tables, true, true, false, false);
+                let spec = ins.cfg.to_spec().expect("generated instance parses");
+                let o = analyse_built(&sc, &spec, &log, &tables, true, true, false, false, None, E1Outcome::default());
+                drop(sc);
                 for (w, m) in o.c02.iter().chain(o.c03.iter()) {
                     viol.lock().unwrap().add("", || Violation { key: String::new(), summary: format!("{}: {w}: {} (witness {:?})", ins.name, m.what, m.witness.chars().take(30).collect::<String>()), replay: json!({"instance": ins.name, "where": w, "disagreement": m.what, "witness_length": m.witness.chars().count()}) });
                 }
